@@ -1,8 +1,1888 @@
-// C13 harness part (stub until built)
-use crate::verif::vx::report::Report;
+// C13 harness: "the installed VRPs always equal what the RPKI cache has
+// announced so far".  Lives inside crate::rpki (child module), so the private
+// `RpkiClient::serve_inner` and `RpkiState` are reachable.
+//
+// Technique: bounded-exhaustive enumeration of conforming RFC 6810 / RFC 8210
+// cache scripts x TCP fragmentation x session-loss points, each one executed
+// against the REAL `serve_inner` over `tokio::io::duplex`, with the harness
+// playing the cache.  The cache's bytes are produced by an encoder written
+// from the RFCs (below), never by the repository's encoder.
+//
+// Acknowledgement without sleeping: the client's end of the duplex is wrapped
+// in a thin tap (`Tap`) that records how many bytes the client has read and
+// whether its last `poll_read` returned Pending.  "Client has read every byte
+// written so far AND is parked in poll_read" is the explicit signal that it
+// has processed everything it is going to process; at that point the public
+// receive counters of `RpkiState` (end_of_data, cache_response, ...) tell
+// whether every complete PDU delivered was consumed.  A client that is parked
+// with complete PDUs unconsumed has wedged (progress clause).  Waiting is a
+// loop of `yield_now()` turns on a current-thread runtime, bounded by
+// TURN_LIMIT whose expiry is a machinery error, never a verdict.
 
-pub(crate) fn run_c13(_replay: Option<&str>) -> Report {
+use super::*;
+use crate::table_manager::TableManager;
+use crate::verif::vx::bfs::hash128;
+use crate::verif::vx::enumr;
+use crate::verif::vx::report::{self, Report, Violation};
+use futures::FutureExt;
+use std::collections::{BTreeMap, BTreeSet, HashSet};
+use std::pin::Pin;
+use std::sync::Mutex;
+use std::sync::atomic::AtomicUsize;
+use std::task::{Context, Poll};
+use tokio::io::{AsyncRead, AsyncReadExt, AsyncWrite, AsyncWriteExt, DuplexStream, ReadBuf};
+
+const TURN_LIMIT: u64 = 200_000;
+const S0: u32 = 7; // serial of the reset response; round i ends at serial S0+i
+const WATCHDOG_SECS: u64 = 120;
+
+// ---------------------------------------------------------------------------
+// universe of VRPs
+// ---------------------------------------------------------------------------
+
+#[derive(Clone, Copy, PartialEq, Eq, PartialOrd, Ord, Hash, Debug)]
+struct Vrp {
+    v6: bool,
+    addr: [u8; 16],
+    plen: u8,
+    maxlen: u8,
+    asn: u32,
+}
+
+const fn v4(a: [u8; 4], plen: u8, maxlen: u8, asn: u32) -> Vrp {
+    let mut addr = [0u8; 16];
+    addr[0] = a[0];
+    addr[1] = a[1];
+    addr[2] = a[2];
+    addr[3] = a[3];
+    Vrp { v6: false, addr, plen, maxlen, asn }
+}
+
+/// a and b collide on the prefix (same trie node, differ only in max-len);
+/// c is IPv6; d is only used by the passive second cache.  Both caches
+/// announce `a`, so the per-source separation of identical VRPs is exercised.
+const UNI: [Vrp; 4] = [
+    v4([10, 0, 0, 0], 8, 16, 65001),
+    v4([10, 0, 0, 0], 8, 24, 65001),
+    Vrp {
+        v6: true,
+        addr: [0x20, 0x01, 0x0d, 0xb8, 0, 0, 0, 0, 0, 0, 0, 0, 0, 0, 0, 0],
+        plen: 32,
+        maxlen: 48,
+        asn: 65001,
+    },
+    v4([192, 0, 2, 0], 24, 24, 65003),
+];
+const LETTERS: &[u8; 4] = b"abcd";
+
+fn vrp_str(v: &Vrp) -> String {
+    if v.v6 {
+        let a: [u8; 16] = v.addr;
+        format!("{}/{}-{} AS{}", std::net::Ipv6Addr::from(a), v.plen, v.maxlen, v.asn)
+    } else {
+        format!("{}.{}.{}.{}/{}-{} AS{}", v.addr[0], v.addr[1], v.addr[2], v.addr[3], v.plen, v.maxlen, v.asn)
+    }
+}
+
+fn set_str(s: &BTreeSet<Vrp>) -> String {
+    let v: Vec<String> = s.iter().map(vrp_str).collect();
+    format!("{{{}}}", v.join(", "))
+}
+
+// ---------------------------------------------------------------------------
+// RTR PDUs as a cache sends them (RFC 6810 section 5 / RFC 8210 section 5)
+// ---------------------------------------------------------------------------
+
+#[derive(Clone, Debug, PartialEq, Eq)]
+enum Pdu {
+    SerialNotify(u32),
+    CacheResponse,
+    Prefix(usize, bool), // (index into UNI, announce)
+    EndOfData(u32),
+    CacheReset,
+    /// Error Report, code 2 "No Data Available" (non-fatal), encapsulating the
+    /// router's Serial Query (which carried this serial) and a diagnostic text.
+    ErrorReport(u32),
+    /// Router Key PDU (type 9, RFC 8210 5.10), v1 only; the client has no use for it.
+    RouterKey(bool),
+}
+
+const K_NOTIFY: usize = 0;
+const K_RESPONSE: usize = 1;
+const K_V4: usize = 2;
+const K_V6: usize = 3;
+const K_EOD: usize = 4;
+const K_RESET: usize = 5;
+const K_ERROR: usize = 6;
+const KIND_NAMES: [&str; 7] = ["serial-notify", "cache-response", "ipv4-prefix", "ipv6-prefix", "end-of-data", "cache-reset", "error-report"];
+
+impl Pdu {
+    /// which of the client's public receive counters acknowledges this PDU
+    fn counter(&self) -> Option<usize> {
+        match self {
+            Pdu::SerialNotify(_) => Some(K_NOTIFY),
+            Pdu::CacheResponse => Some(K_RESPONSE),
+            Pdu::Prefix(r, _) => Some(if UNI[*r].v6 { K_V6 } else { K_V4 }),
+            Pdu::EndOfData(_) => Some(K_EOD),
+            Pdu::CacheReset => Some(K_RESET),
+            Pdu::ErrorReport(_) => Some(K_ERROR),
+            Pdu::RouterKey(_) => None,
+        }
+    }
+    fn name(&self) -> &'static str {
+        match self {
+            Pdu::RouterKey(_) => "router-key",
+            p => KIND_NAMES[p.counter().unwrap()],
+        }
+    }
+    fn short(&self) -> String {
+        match self {
+            Pdu::SerialNotify(s) => format!("Notify({s})"),
+            Pdu::CacheResponse => "CacheResponse".into(),
+            Pdu::Prefix(r, a) => format!("{}{}", if *a { '+' } else { '-' }, LETTERS[*r] as char),
+            Pdu::EndOfData(s) => format!("EoD({s})"),
+            Pdu::CacheReset => "CacheReset".into(),
+            Pdu::ErrorReport(_) => "ErrorReport(2)".into(),
+            Pdu::RouterKey(a) => format!("RouterKey{}", if *a { '+' } else { '-' }),
+        }
+    }
+}
+
+fn hdr(out: &mut Vec<u8>, ver: u8, typ: u8, field: u16, len: u32) {
+    out.push(ver);
+    out.push(typ);
+    out.extend_from_slice(&field.to_be_bytes());
+    out.extend_from_slice(&len.to_be_bytes());
+}
+
+/// what the client's Serial Query looks like on the wire (the client always speaks version 1)
+fn serial_query_bytes(session: u16, serial: u32) -> Vec<u8> {
+    let mut o = Vec::new();
+    hdr(&mut o, 1, 1, session, 12);
+    o.extend_from_slice(&serial.to_be_bytes());
+    o
+}
+
+fn encode(p: &Pdu, ver: u8, session: u16, out: &mut Vec<u8>) {
+    match p {
+        Pdu::SerialNotify(s) => {
+            hdr(out, ver, 0, session, 12);
+            out.extend_from_slice(&s.to_be_bytes());
+        }
+        Pdu::CacheResponse => hdr(out, ver, 3, session, 8),
+        Pdu::Prefix(r, ann) => {
+            let v = &UNI[*r];
+            if v.v6 {
+                hdr(out, ver, 6, 0, 32);
+            } else {
+                hdr(out, ver, 4, 0, 20);
+            }
+            out.push(if *ann { 1 } else { 0 });
+            out.push(v.plen);
+            out.push(v.maxlen);
+            out.push(0);
+            out.extend_from_slice(&v.addr[..if v.v6 { 16 } else { 4 }]);
+            out.extend_from_slice(&v.asn.to_be_bytes());
+        }
+        Pdu::EndOfData(s) => {
+            if ver == 0 {
+                hdr(out, ver, 7, session, 12);
+                out.extend_from_slice(&s.to_be_bytes());
+            } else {
+                hdr(out, ver, 7, session, 24);
+                out.extend_from_slice(&s.to_be_bytes());
+                out.extend_from_slice(&3600u32.to_be_bytes()); // refresh
+                out.extend_from_slice(&600u32.to_be_bytes()); // retry
+                out.extend_from_slice(&7200u32.to_be_bytes()); // expire
+            }
+        }
+        Pdu::CacheReset => hdr(out, ver, 8, 0, 8),
+        Pdu::ErrorReport(qserial) => {
+            let q = serial_query_bytes(session, *qserial);
+            let text = b"no data available";
+            let len = 8 + 4 + q.len() + 4 + text.len();
+            hdr(out, ver, 10, 2, len as u32);
+            out.extend_from_slice(&(q.len() as u32).to_be_bytes());
+            out.extend_from_slice(&q);
+            out.extend_from_slice(&(text.len() as u32).to_be_bytes());
+            out.extend_from_slice(text);
+        }
+        Pdu::RouterKey(ann) => {
+            // version, type 9, flags, zero, length, SKI(20), ASN(4), SubjectPublicKeyInfo (91 bytes for P-256)
+            let spki_len = 91usize;
+            let len = 8 + 20 + 4 + spki_len;
+            out.push(ver);
+            out.push(9);
+            out.push(if *ann { 1 } else { 0 });
+            out.push(0);
+            out.extend_from_slice(&(len as u32).to_be_bytes());
+            for i in 0..20u8 {
+                out.push(0xA0 ^ i);
+            }
+            out.extend_from_slice(&65001u32.to_be_bytes());
+            // DER header of an ecPublicKey/prime256v1 SPKI followed by an uncompressed point
+            let der: [u8; 27] = [
+                0x30, 0x59, 0x30, 0x13, 0x06, 0x07, 0x2a, 0x86, 0x48, 0xce, 0x3d, 0x02, 0x01, 0x06, 0x08, 0x2a, 0x86, 0x48, 0xce, 0x3d, 0x03, 0x01,
+                0x07, 0x03, 0x42, 0x00, 0x04,
+            ];
+            out.extend_from_slice(&der);
+            for i in 0..(spki_len - der.len()) {
+                out.push((i as u8).wrapping_mul(7).wrapping_add(3));
+            }
+        }
+    }
+}
+
+// ---------------------------------------------------------------------------
+// scripts
+// ---------------------------------------------------------------------------
+
+#[derive(Clone, Debug, PartialEq, Eq, Hash)]
+enum Round {
+    Data(Vec<(usize, bool)>),
+    Reset,
+    Error,
+}
+
+#[derive(Clone, Debug, PartialEq, Eq, Hash)]
+struct Script {
+    ver: u8,
+    init: Vec<usize>,
+    rounds: Vec<Round>,
+    /// Router Key PDU inside data response `resp` (0 = reset response, i = round i)
+    /// before payload PDU number `pos`, with announce flag
+    extra: Option<(usize, usize, bool)>,
+}
+
+#[derive(Clone, Copy, PartialEq, Eq, Debug)]
+enum SegKind {
+    InitResp,
+    Notify,
+    DataResp,
+    ResetResp,
+    ErrResp,
+}
+
+#[derive(Clone, Copy, PartialEq, Eq, Debug)]
+enum ExpectQ {
+    Reset,
+    Serial(u32),
+}
+
+#[derive(Clone, Debug)]
+struct Seg {
+    kind: SegKind,
+    query: Option<ExpectQ>,
+    pdus: Vec<Pdu>,
+}
+
+fn segments(s: &Script) -> Vec<Seg> {
+    let mut segs = Vec::new();
+    let with_extra = |resp: usize, payload: Vec<Pdu>, s: &Script| -> Vec<Pdu> {
+        let mut p = payload;
+        if let Some((r, pos, ann)) = s.extra {
+            if r == resp {
+                let pos = pos.min(p.len());
+                p.insert(pos, Pdu::RouterKey(ann));
+            }
+        }
+        p
+    };
+    let mut pdus = vec![Pdu::CacheResponse];
+    pdus.extend(with_extra(0, s.init.iter().map(|&r| Pdu::Prefix(r, true)).collect(), s));
+    pdus.push(Pdu::EndOfData(S0));
+    segs.push(Seg { kind: SegKind::InitResp, query: Some(ExpectQ::Reset), pdus });
+    let mut last = S0;
+    for (i, r) in s.rounds.iter().enumerate() {
+        let serial = S0 + 1 + i as u32;
+        segs.push(Seg { kind: SegKind::Notify, query: None, pdus: vec![Pdu::SerialNotify(serial)] });
+        match r {
+            Round::Data(d) => {
+                let mut pdus = vec![Pdu::CacheResponse];
+                pdus.extend(with_extra(i + 1, d.iter().map(|&(r, a)| Pdu::Prefix(r, a)).collect(), s));
+                pdus.push(Pdu::EndOfData(serial));
+                segs.push(Seg { kind: SegKind::DataResp, query: Some(ExpectQ::Serial(last)), pdus });
+                last = serial;
+            }
+            Round::Reset => segs.push(Seg { kind: SegKind::ResetResp, query: Some(ExpectQ::Serial(last)), pdus: vec![Pdu::CacheReset] }),
+            Round::Error => segs.push(Seg { kind: SegKind::ErrResp, query: Some(ExpectQ::Serial(last)), pdus: vec![Pdu::ErrorReport(last)] }),
+        }
+    }
+    segs
+}
+
+/// one PDU per segment (PDU-granular interleaving of two caches)
+fn split_per_pdu(segs: Vec<Seg>) -> Vec<Seg> {
+    let mut out = Vec::new();
+    for s in segs {
+        for (i, p) in s.pdus.iter().enumerate() {
+            out.push(Seg { kind: s.kind, query: if i == 0 { s.query } else { None }, pdus: vec![p.clone()] });
+        }
+    }
+    out
+}
+
+fn script_str(s: &Script) -> String {
+    let init: String = if s.init.is_empty() { "-".into() } else { s.init.iter().map(|&r| LETTERS[r] as char).collect() };
+    let rounds: String = if s.rounds.is_empty() {
+        "-".into()
+    } else {
+        s.rounds
+            .iter()
+            .map(|r| match r {
+                Round::Data(d) if d.is_empty() => "_".to_string(),
+                Round::Data(d) => d.iter().map(|&(r, a)| format!("{}{}", if a { '+' } else { '-' }, LETTERS[r] as char)).collect(),
+                Round::Reset => "reset".into(),
+                Round::Error => "err".into(),
+            })
+            .collect::<Vec<_>>()
+            .join(",")
+    };
+    let extra = match s.extra {
+        None => "x-".to_string(),
+        Some((r, p, a)) => format!("x{}.{}{}", r, p, if a { '+' } else { '-' }),
+    };
+    format!("v{}|{}|{}|{}", s.ver, init, rounds, extra)
+}
+
+fn letter_idx(c: char) -> Option<usize> {
+    LETTERS.iter().position(|&l| l as char == c)
+}
+
+fn parse_script(f: &[&str]) -> Option<Script> {
+    if f.len() < 4 {
+        return None;
+    }
+    let ver: u8 = f[0].strip_prefix('v')?.parse().ok()?;
+    let init = if f[1] == "-" { vec![] } else { f[1].chars().map(letter_idx).collect::<Option<Vec<_>>>()? };
+    let mut rounds = Vec::new();
+    if f[2] != "-" {
+        for r in f[2].split(',') {
+            rounds.push(match r {
+                "reset" => Round::Reset,
+                "err" => Round::Error,
+                "_" => Round::Data(vec![]),
+                d => {
+                    let cs: Vec<char> = d.chars().collect();
+                    if cs.len() % 2 != 0 {
+                        return None;
+                    }
+                    let mut v = Vec::new();
+                    for c in cs.chunks(2) {
+                        let ann = match c[0] {
+                            '+' => true,
+                            '-' => false,
+                            _ => return None,
+                        };
+                        v.push((letter_idx(c[1])?, ann));
+                    }
+                    Round::Data(v)
+                }
+            });
+        }
+    }
+    let extra = if f[3] == "x-" {
+        None
+    } else {
+        let x = f[3].strip_prefix('x')?;
+        let ann = x.ends_with('+');
+        let x = &x[..x.len() - 1];
+        let (r, p) = x.split_once('.')?;
+        Some((r.parse().ok()?, p.parse().ok()?, ann))
+    };
+    Some(Script { ver, init, rounds, extra })
+}
+
+#[derive(Clone, Copy, PartialEq, Eq, Hash, Debug)]
+enum Delivery {
+    Whole,
+    Bytes,
+    Split(usize),
+}
+
+fn delivery_str(d: Delivery) -> String {
+    match d {
+        Delivery::Whole => "whole".into(),
+        Delivery::Bytes => "bytes".into(),
+        Delivery::Split(k) => format!("split{k}"),
+    }
+}
+fn parse_delivery(s: &str) -> Option<Delivery> {
+    match s {
+        "whole" => Some(Delivery::Whole),
+        "bytes" => Some(Delivery::Bytes),
+        x => x.strip_prefix("split")?.parse().ok().map(Delivery::Split),
+    }
+}
+fn fault_str(f: Option<usize>) -> String {
+    match f {
+        None => "nofault".into(),
+        Some(j) => format!("close{j}"),
+    }
+}
+fn parse_fault(s: &str) -> Option<Option<usize>> {
+    match s {
+        "nofault" => Some(None),
+        x => x.strip_prefix("close")?.parse().ok().map(Some),
+    }
+}
+
+/// A case: one or two scripted caches on one TableManager plus the order in
+/// which the harness advances them (one segment per step; a step on an actor
+/// whose script is exhausted closes its connection).
+#[derive(Clone, Debug)]
+struct Case {
+    two: bool,
+    a: Script,
+    b: Script,
+    delivery: Delivery,    // applies to cache A
+    fault: Option<usize>,  // applies to cache A: close after this many PDUs
+    merge: Vec<u8>,        // two-cache mode: actor index per step
+    per_pdu: bool,         // two-cache mode: one PDU per step instead of one segment
+}
+
+/// the passive second cache of single-cache cases: announces {a, d} once and stays up
+fn passive_b() -> Script {
+    Script { ver: 1, init: vec![0, 3], rounds: vec![], extra: None }
+}
+
+fn case_str(c: &Case) -> String {
+    if c.two {
+        let m: String = c.merge.iter().map(|&x| if x == 0 { 'A' } else { 'B' }).collect();
+        format!("T|{}|{}|{}|{}", script_str(&c.a), script_str(&c.b), m, if c.per_pdu { "pdu" } else { "seg" })
+    } else {
+        format!("S|{}|{}|{}", script_str(&c.a), delivery_str(c.delivery), fault_str(c.fault))
+    }
+}
+
+fn parse_case(s: &str) -> Option<Case> {
+    let f: Vec<&str> = s.trim().split('|').collect();
+    match f.first().copied()? {
+        "S" if f.len() == 7 => Some(Case {
+            two: false,
+            a: parse_script(&f[1..5])?,
+            b: passive_b(),
+            delivery: parse_delivery(f[5])?,
+            fault: parse_fault(f[6])?,
+            merge: vec![],
+            per_pdu: false,
+        }),
+        "T" if f.len() == 11 => Some(Case {
+            two: true,
+            a: parse_script(&f[1..5])?,
+            b: parse_script(&f[5..9])?,
+            delivery: Delivery::Whole,
+            fault: None,
+            merge: f[9].chars().map(|c| if c == 'A' { 0 } else { 1 }).collect(),
+            per_pdu: f[10] == "pdu",
+        }),
+        _ => None,
+    }
+}
+
+// ---------------------------------------------------------------------------
+// the tap around the client's end of the duplex
+// ---------------------------------------------------------------------------
+
+#[derive(Default)]
+struct IoStat {
+    bytes_read: AtomicUsize,
+    reads: AtomicUsize,
+    parked: AtomicBool,
+}
+
+struct Tap {
+    inner: DuplexStream,
+    st: Arc<IoStat>,
+}
+
+impl AsyncRead for Tap {
+    fn poll_read(mut self: Pin<&mut Self>, cx: &mut Context<'_>, buf: &mut ReadBuf<'_>) -> Poll<std::io::Result<()>> {
+        let before = buf.filled().len();
+        let r = Pin::new(&mut self.inner).poll_read(cx, buf);
+        match &r {
+            Poll::Pending => self.st.parked.store(true, Ordering::SeqCst),
+            Poll::Ready(_) => {
+                let n = buf.filled().len() - before;
+                if n > 0 {
+                    self.st.bytes_read.fetch_add(n, Ordering::SeqCst);
+                    self.st.reads.fetch_add(1, Ordering::SeqCst);
+                }
+                self.st.parked.store(false, Ordering::SeqCst);
+            }
+        }
+        r
+    }
+}
+
+impl AsyncWrite for Tap {
+    fn poll_write(mut self: Pin<&mut Self>, cx: &mut Context<'_>, buf: &[u8]) -> Poll<std::io::Result<usize>> {
+        Pin::new(&mut self.inner).poll_write(cx, buf)
+    }
+    fn poll_flush(mut self: Pin<&mut Self>, cx: &mut Context<'_>) -> Poll<std::io::Result<()>> {
+        Pin::new(&mut self.inner).poll_flush(cx)
+    }
+    fn poll_shutdown(mut self: Pin<&mut Self>, cx: &mut Context<'_>) -> Poll<std::io::Result<()>> {
+        Pin::new(&mut self.inner).poll_shutdown(cx)
+    }
+}
+
+// ---------------------------------------------------------------------------
+// one scripted cache + the real client attached to it
+// ---------------------------------------------------------------------------
+
+#[derive(Clone, Copy, PartialEq, Eq, Debug)]
+enum Query {
+    Reset,
+    Serial(u16, u32),
+    Other(u8),
+}
+
+struct Actor {
+    name: char,
+    addr: Arc<IpAddr>,
+    session: u16,
+    ver: u8,
+    segs: Vec<Seg>,
+    next_seg: usize,
+    delivery: Delivery,
+    fault: Option<usize>,
+    io: Option<DuplexStream>,
+    st: Arc<IoStat>,
+    state: Arc<RpkiState>,
+    handle: Option<tokio::task::JoinHandle<Result<(), Error>>>,
+    written: usize,
+    chunks: usize,
+    sent: Vec<Pdu>,
+    inbuf: Vec<u8>,
+    /// fold of the script so far (the reference: plain set operations)
+    expect: BTreeSet<Vrp>,
+    /// what the last reset response announced (only used to name the shape of a mismatch)
+    snapshot: BTreeSet<Vrp>,
+    synced: bool,
+    incr_ann: BTreeSet<Vrp>,
+    incr_wd: BTreeSet<Vrp>,
+    closed: bool,
+}
+
+fn read_counters(s: &RpkiState) -> [i64; 7] {
+    [
+        s.serial_notify.load(Ordering::SeqCst),
+        s.cache_response.load(Ordering::SeqCst),
+        s.received_ipv4.load(Ordering::SeqCst),
+        s.received_ipv6.load(Ordering::SeqCst),
+        s.end_of_data.load(Ordering::SeqCst),
+        s.cache_reset.load(Ordering::SeqCst),
+        s.error.load(Ordering::SeqCst),
+    ]
+}
+
+#[derive(Default, Clone)]
+struct Outcome {
+    viol: Option<(String, String)>,
+    viol_actor: usize,
+    mach: Option<String>,
+    trace: Vec<u8>,
+    checks: u64,
+    max_turns: u64,
+    reset_query_after_cache_reset: u64,
+    cache_reset_unanswered: u64,
+    no_query: u64,
+    unexpected_query: u64,
+    frag_chunks: u64,
+    frag_reads: u64,
+}
+
+struct World {
+    tables: TableHandle,
+    actors: Vec<Actor>,
+    out: Outcome,
+    verbose: bool,
+    /// observation at the last quiescent point before the current step (isolation oracle)
+    before: BTreeMap<IpAddr, BTreeSet<Vrp>>,
+    last_event: &'static str,
+}
+
+#[derive(Clone, Copy, PartialEq, Eq)]
+enum Phase {
+    ResetEod,
+    IncrEod,
+    Close,
+}
+
+impl World {
+    fn log(&self, f: impl FnOnce() -> String) {
+        if self.verbose {
+            eprintln!("  step {}", f());
+        }
+    }
+
+    fn broken(&self) -> bool {
+        self.out.viol.is_some() || self.out.mach.is_some()
+    }
+
+    fn violate(&mut self, sig: String, what: String) {
+        if self.out.viol.is_none() {
+            self.log(|| format!("VIOLATION {sig}: {what}"));
+            self.out.viol = Some((sig, what));
+        }
+    }
+
+    fn drain(&mut self, i: usize) {
+        let a = &mut self.actors[i];
+        if let Some(io) = a.io.as_mut() {
+            let mut buf = [0u8; 256];
+            loop {
+                match io.read(&mut buf).now_or_never() {
+                    Some(Ok(n)) if n > 0 => a.inbuf.extend_from_slice(&buf[..n]),
+                    _ => break,
+                }
+            }
+        }
+    }
+
+    /// Wait until the client of actor `i` has read everything written to it and
+    /// is parked in poll_read (true), or its task has ended (false).
+    async fn settle(&mut self, i: usize) -> bool {
+        let mut n = 0u64;
+        let r = loop {
+            self.drain(i);
+            let a = &self.actors[i];
+            match a.handle.as_ref() {
+                None => break false,
+                Some(h) if h.is_finished() => break false,
+                _ => {}
+            }
+            if a.st.parked.load(Ordering::SeqCst) && a.st.bytes_read.load(Ordering::SeqCst) == a.written {
+                break true;
+            }
+            tokio::task::yield_now().await;
+            n += 1;
+            if n > TURN_LIMIT {
+                self.out.mach = Some(format!(
+                    "client of cache {} neither parked nor finished within {} scheduler turns (read {} of {} bytes)",
+                    a.name,
+                    TURN_LIMIT,
+                    a.st.bytes_read.load(Ordering::SeqCst),
+                    a.written
+                ));
+                break false;
+            }
+        };
+        self.drain(i);
+        self.out.max_turns = self.out.max_turns.max(n);
+        r
+    }
+
+    fn take_queries(&mut self, i: usize) -> Vec<Query> {
+        self.drain(i);
+        let a = &mut self.actors[i];
+        let mut qs = Vec::new();
+        // own parser for the router's PDUs (RFC 8210 5.3, 5.4): 8-byte header, length field
+        while a.inbuf.len() >= 8 {
+            let typ = a.inbuf[1];
+            let field = u16::from_be_bytes([a.inbuf[2], a.inbuf[3]]);
+            let len = u32::from_be_bytes([a.inbuf[4], a.inbuf[5], a.inbuf[6], a.inbuf[7]]) as usize;
+            if len < 8 || a.inbuf.len() < len {
+                break;
+            }
+            let pdu: Vec<u8> = a.inbuf.drain(..len).collect();
+            qs.push(match (typ, len) {
+                (2, 8) => Query::Reset,
+                (1, 12) => Query::Serial(field, u32::from_be_bytes([pdu[8], pdu[9], pdu[10], pdu[11]])),
+                (t, _) => Query::Other(t),
+            });
+        }
+        qs
+    }
+
+    async fn start(&mut self, i: usize) {
+        let (client_io, server_io) = tokio::io::duplex(1 << 16);
+        let a = &mut self.actors[i];
+        let tap = Tap { inner: client_io, st: a.st.clone() };
+        let framed = Framed::new(tap, rpki::RtrCodec::new());
+        let fut = RpkiClient::serve_inner(
+            framed,
+            a.addr.clone(),
+            CancellationToken::new(),
+            Arc::new(Notify::new()),
+            a.state.clone(),
+            self.tables.clone(),
+        );
+        a.handle = Some(tokio::spawn(fut));
+        a.io = Some(server_io);
+        self.log(|| format!("cache {}: client connected", self.actors[i].name));
+    }
+
+    /// close the cache's end of the connection, wait for the client task to end, check the session-end clause
+    async fn close(&mut self, i: usize) {
+        if self.actors[i].closed {
+            return;
+        }
+        self.drain(i);
+        self.actors[i].io = None; // drop => EOF at the client
+        let mut n = 0u64;
+        loop {
+            match self.actors[i].handle.as_ref() {
+                Some(h) if !h.is_finished() => {}
+                _ => break,
+            }
+            tokio::task::yield_now().await;
+            n += 1;
+            if n > TURN_LIMIT {
+                self.out.mach = Some(format!("client of cache {} did not end within {} scheduler turns after EOF", self.actors[i].name, TURN_LIMIT));
+                if let Some(h) = self.actors[i].handle.take() {
+                    h.abort();
+                }
+                self.actors[i].closed = true;
+                return;
+            }
+        }
+        self.out.max_turns = self.out.max_turns.max(n);
+        let mut panicked = None;
+        if let Some(h) = self.actors[i].handle.take() {
+            if let Err(e) = h.await {
+                if e.is_panic() {
+                    let p = e.into_panic();
+                    let msg = if let Some(s) = p.downcast_ref::<&str>() {
+                        s.to_string()
+                    } else if let Some(s) = p.downcast_ref::<String>() {
+                        s.clone()
+                    } else {
+                        "panic".into()
+                    };
+                    panicked = Some(msg);
+                }
+            }
+        }
+        self.actors[i].closed = true;
+        self.log(|| format!("cache {}: connection closed after {} PDUs, client task ended", self.actors[i].name, self.actors[i].sent.len()));
+        if let Some(msg) = panicked {
+            if !self.broken() {
+                let shape: String = msg.chars().filter(|c| !c.is_ascii_digit()).take(60).collect();
+                self.violate(format!("C13/panic/{}", shape.replace(' ', "_")), format!("the client task of cache {} panicked: {}", self.actors[i].name, msg));
+            }
+            return;
+        }
+        if !self.broken() {
+            self.check(i, Phase::Close);
+        }
+    }
+
+    /// `collect_roa` of both families, grouped by `Roa.source`, as sets keyed by (prefix, max-len, AS)
+    fn observe(&self) -> BTreeMap<IpAddr, BTreeSet<Vrp>> {
+        let mut got: BTreeMap<IpAddr, BTreeSet<Vrp>> = BTreeMap::new();
+        for fam in [packet::Family::IPV4, packet::Family::IPV6] {
+            for (net, roa) in self.tables.collect_roa(fam) {
+                let (v6, addr, plen) = match net {
+                    packet::IpNet::V4(n) => {
+                        let mut a = [0u8; 16];
+                        a[..4].copy_from_slice(&n.addr.octets());
+                        (false, a, n.mask)
+                    }
+                    packet::IpNet::V6(n) => (true, n.addr.octets(), n.mask),
+                };
+                // duplicates are invisible to a set-valued statement; not judged
+                got.entry(*roa.source).or_default().insert(Vrp { v6, addr, plen, maxlen: roa.max_length, asn: roa.as_number });
+            }
+        }
+        got
+    }
+
+    /// oracle, fold / session-end clause: the VRPs installed for cache `focus` equal the fold of its script so far
+    /// (nothing after its session ended).  Evaluated at this cache's own End-of-Data and at its session end only.
+    fn check(&mut self, focus: usize, phase: Phase) {
+        self.out.checks += 1;
+        let got = self.observe();
+        // trace of observations (for outcome statistics)
+        self.out.trace.push(match phase {
+            Phase::ResetEod => b'R',
+            Phase::IncrEod => b'I',
+            Phase::Close => b'C',
+        });
+        for (src, set) in &got {
+            self.out.trace.extend_from_slice(src.to_string().as_bytes());
+            for v in set {
+                self.out.trace.extend_from_slice(&v.addr[..5]);
+                self.out.trace.push(v.maxlen);
+            }
+            self.out.trace.push(b';');
+        }
+        self.last_event = match phase {
+            Phase::ResetEod => "on-reset-eod",
+            Phase::IncrEod => "on-incremental-eod",
+            Phase::Close => "on-session-end",
+        };
+        let empty = BTreeSet::new();
+        let a = &self.actors[focus];
+        if a.synced || a.closed {
+            // (nothing is specified before the first End-of-Data)
+            let want: &BTreeSet<Vrp> = if a.closed { &empty } else { &a.expect };
+            let have = got.get(&*a.addr).unwrap_or(&empty);
+            self.log(|| format!("check cache {}: installed {} expected {}", a.name, set_str(have), set_str(want)));
+            if have != want {
+                let missing: BTreeSet<Vrp> = want.difference(have).cloned().collect();
+                let extra: BTreeSet<Vrp> = have.difference(want).cloned().collect();
+                let mut classes = BTreeSet::new();
+                for v in &missing {
+                    classes.insert(if a.incr_ann.contains(v) { "incr-announce-lost" } else { "snapshot-vrp-lost" });
+                }
+                for v in &extra {
+                    classes.insert(if a.closed {
+                        "left-behind"
+                    } else if a.incr_wd.contains(v) {
+                        "incr-withdraw-undone"
+                    } else {
+                        "never-announced-vrp"
+                    });
+                }
+                let classes: Vec<&str> = classes.into_iter().collect();
+                let mut classes = classes.join("+");
+                if !a.closed && phase == Phase::IncrEod && *have == a.snapshot {
+                    // the installed set is exactly what the reset response announced: every incremental change is gone
+                    classes = "reverted-to-reset-snapshot".into();
+                }
+                let what_sets = format!("expected {} but collect_roa has {} (missing {}, unexpected {})", set_str(want), set_str(have), set_str(&missing), set_str(&extra));
+                let (sig, what) = match phase {
+                    Phase::ResetEod => (
+                        format!("C13/fold/reset-response/{classes}"),
+                        format!("after the End-of-Data of a reset response from cache {}: {}", a.name, what_sets),
+                    ),
+                    Phase::IncrEod => (
+                        format!("C13/fold/incremental/{classes}"),
+                        format!("after the End-of-Data of an incremental (serial) response from cache {}: {}", a.name, what_sets),
+                    ),
+                    Phase::Close => (
+                        format!("C13/session-end/{classes}"),
+                        format!("after the session of cache {} ended: {}", a.name, what_sets),
+                    ),
+                };
+                self.out.viol_actor = focus;
+                self.violate(sig, what);
+                return;
+            }
+        }
+        // VRPs attributed to a source that is no cache of this run
+        for (src, set) in &got {
+            if !self.actors.iter().any(|a| *a.addr == *src) && !set.is_empty() {
+                self.out.viol_actor = focus;
+                self.violate("C13/fold/foreign-source".into(), format!("VRPs installed for unknown source {}: {}", src, set_str(set)));
+                return;
+            }
+        }
+    }
+
+    /// oracle, isolation clause: whatever cache `i` just did (any PDU, End-of-Data, session end), the VRPs
+    /// installed for every OTHER cache are exactly what they were before the step (`self.before`).
+    fn check_isolation(&mut self, i: usize) {
+        let after = self.observe();
+        let empty = BTreeSet::new();
+        for k in 0..self.actors.len() {
+            if k == i {
+                continue;
+            }
+            let a = &self.actors[k];
+            let was = self.before.get(&*a.addr).unwrap_or(&empty);
+            let is = after.get(&*a.addr).unwrap_or(&empty);
+            if was == is {
+                continue;
+            }
+            let removed: BTreeSet<Vrp> = was.difference(is).cloned().collect();
+            let added: BTreeSet<Vrp> = is.difference(was).cloned().collect();
+            let class = match (removed.is_empty(), added.is_empty()) {
+                (false, true) => "vrp-removed",
+                (true, false) => "vrp-added",
+                _ => "vrp-removed+vrp-added",
+            };
+            let sig = format!("C13/isolation/{}/{}", self.last_event, class);
+            let what = format!(
+                "a step of cache {} ({}) changed the VRPs installed for cache {}: before {} after {} (removed {}, added {})",
+                self.actors[i].name,
+                &self.last_event[3..],
+                a.name,
+                set_str(was),
+                set_str(is),
+                set_str(&removed),
+                set_str(&added)
+            );
+            self.out.viol_actor = i;
+            self.violate(sig, what);
+            return;
+        }
+    }
+
+    /// one scheduling step of cache i, bracketed by the isolation oracle
+    async fn step(&mut self, i: usize) {
+        if self.actors[i].closed || self.broken() {
+            return;
+        }
+        self.before = self.observe();
+        self.last_event = "on-other-pdu";
+        self.advance(i).await;
+        if !self.broken() {
+            self.check_isolation(i);
+        }
+    }
+
+    /// progress clause: every complete PDU delivered so far has been consumed
+    fn check_progress(&mut self, i: usize, finished: bool) {
+        self.out.viol_actor = i;
+        let a = &self.actors[i];
+        let have = read_counters(&a.state);
+        let mut want = [0i64; 7];
+        for p in &a.sent {
+            if let Some(k) = p.counter() {
+                want[k] += 1;
+            }
+        }
+        if have == want {
+            return;
+        }
+        for k in 0..7 {
+            if have[k] > want[k] {
+                let sig = format!("C13/progress/pdu-processed-twice/{}", KIND_NAMES[k]);
+                let what = format!("cache {} sent {} {} PDUs, the client counted {}", a.name, want[k], KIND_NAMES[k], have[k]);
+                self.violate(sig, what);
+                return;
+            }
+        }
+        // find the first PDU that was not consumed: walk the sent list, consuming counted PDUs
+        let mut left = have;
+        let mut culprit = None;
+        let mut first_unknown_since = None;
+        for (idx, p) in a.sent.iter().enumerate() {
+            match p.counter() {
+                Some(k) => {
+                    if left[k] > 0 {
+                        left[k] -= 1;
+                        first_unknown_since = None;
+                    } else {
+                        culprit = Some(first_unknown_since.unwrap_or(idx));
+                        break;
+                    }
+                }
+                None => {
+                    if first_unknown_since.is_none() {
+                        first_unknown_since = Some(idx);
+                    }
+                }
+            }
+        }
+        let idx = culprit.unwrap_or(0);
+        let p = &a.sent[idx];
+        let unconsumed: Vec<String> = a.sent[idx..].iter().map(|p| p.short()).collect();
+        let how = if finished { "client-quit" } else { "wedge" };
+        let sig = format!("C13/progress/{}/{}-v{}", how, p.name(), a.ver);
+        let what = if finished {
+            format!(
+                "cache {} delivered the complete, well-formed PDUs [{}]; the client ended the session at the {} PDU instead of consuming them",
+                a.name,
+                unconsumed.join(" "),
+                p.name()
+            )
+        } else {
+            format!(
+                "cache {} delivered the complete, well-formed PDUs [{}] ({} bytes, all read by the client); the client is parked waiting for more input and has not consumed them (receive counters {:?}, expected {:?}): it stops at the {} PDU",
+                a.name,
+                unconsumed.join(" "),
+                a.written,
+                have,
+                want,
+                p.name()
+            )
+        };
+        self.violate(sig, what);
+    }
+
+    /// deliver `bytes` to actor i according to its delivery plan; returns false if the client task ended
+    async fn deliver(&mut self, i: usize, bytes: &[u8]) -> bool {
+        let w0 = self.actors[i].written;
+        let cuts: Vec<usize> = match self.actors[i].delivery {
+            Delivery::Whole => vec![],
+            Delivery::Bytes => (1..bytes.len()).collect(),
+            Delivery::Split(k) => {
+                if k > w0 && k < w0 + bytes.len() {
+                    vec![k - w0]
+                } else {
+                    vec![]
+                }
+            }
+        };
+        let mut start = 0;
+        let mut alive = true;
+        for end in cuts.into_iter().chain(std::iter::once(bytes.len())) {
+            let chunk = &bytes[start..end];
+            start = end;
+            if chunk.is_empty() {
+                continue;
+            }
+            let reads0 = self.actors[i].st.reads.load(Ordering::SeqCst);
+            let ok = match self.actors[i].io.as_mut() {
+                Some(io) => io.write_all(chunk).await.is_ok(),
+                None => false,
+            };
+            if !ok {
+                alive = false;
+                break;
+            }
+            self.actors[i].written += chunk.len();
+            self.actors[i].chunks += 1;
+            alive = self.settle(i).await;
+            if !alive || self.out.mach.is_some() {
+                break;
+            }
+            // non-vacuity of fragmentation: the client saw this chunk in read call(s) of its own
+            self.out.frag_chunks += 1;
+            if self.actors[i].st.reads.load(Ordering::SeqCst) > reads0 {
+                self.out.frag_reads += 1;
+            }
+        }
+        alive
+    }
+
+    /// advance actor i by one segment (or close it if its script is exhausted / its fault point is reached)
+    async fn advance(&mut self, i: usize) {
+        if self.actors[i].closed || self.broken() {
+            return;
+        }
+        if self.actors[i].handle.is_none() {
+            self.start(i).await;
+            if !self.settle(i).await {
+                if self.out.mach.is_none() {
+                    self.out.mach = Some("client task ended before any PDU was sent".into());
+                }
+                return;
+            }
+        }
+        let sent_n = self.actors[i].sent.len();
+        let budget = self.actors[i].fault.map(|j| j.saturating_sub(sent_n));
+        if self.actors[i].next_seg >= self.actors[i].segs.len() || budget == Some(0) {
+            self.close(i).await;
+            return;
+        }
+        let seg = self.actors[i].segs[self.actors[i].next_seg].clone();
+        self.actors[i].next_seg += 1;
+        // a cache only answers queries
+        if let Some(q) = seg.query {
+            if !self.settle(i).await {
+                self.client_gone(i).await;
+                return;
+            }
+            let qs = self.take_queries(i);
+            let a = &self.actors[i];
+            let ok = match q {
+                ExpectQ::Reset => qs == vec![Query::Reset],
+                ExpectQ::Serial(s) => qs == vec![Query::Serial(a.session, s)],
+            };
+            self.log(|| format!("cache {}: client sent {:?} (script expects {:?})", a.name, qs, q));
+            if !ok {
+                if qs.is_empty() {
+                    self.out.no_query += 1;
+                } else {
+                    self.out.unexpected_query += 1;
+                }
+                // a conforming cache has nothing scripted to say here: end the session normally
+                self.close(i).await;
+                return;
+            }
+        }
+        let take = budget.map(|b| b.min(seg.pdus.len())).unwrap_or(seg.pdus.len());
+        let pdus = &seg.pdus[..take];
+        let mut bytes = Vec::new();
+        for p in pdus {
+            encode(p, self.actors[i].ver, self.actors[i].session, &mut bytes);
+        }
+        self.log(|| {
+            let l: Vec<String> = pdus.iter().map(|p| p.short()).collect();
+            format!("cache {} sends [{}] ({} bytes, stream offset {})", self.actors[i].name, l.join(" "), bytes.len(), self.actors[i].written)
+        });
+        let alive = self.deliver(i, &bytes).await;
+        if self.out.mach.is_some() {
+            return;
+        }
+        self.actors[i].sent.extend(pdus.iter().cloned());
+        self.check_progress(i, !alive);
+        if self.broken() {
+            return;
+        }
+        if !alive {
+            self.client_gone(i).await;
+            return;
+        }
+        if take < seg.pdus.len() {
+            self.close(i).await;
+            return;
+        }
+        // End-of-Data acknowledged (end_of_data counter matched in check_progress): evaluate the fold
+        if matches!(seg.pdus.last(), Some(Pdu::EndOfData(_))) {
+            self.apply_fold(i, &seg);
+            let phase = if seg.kind == SegKind::InitResp { Phase::ResetEod } else { Phase::IncrEod };
+            self.check(i, phase);
+        }
+        // (PDU-granular mode: a payload PDU delivered on its own is folded when its End-of-Data arrives)
+        if self.broken() {
+            return;
+        }
+        if seg.kind == SegKind::ResetResp {
+            // RFC 8210 8.4: the router should now send a Reset Query; if it does, answer it
+            let qs = self.take_queries(i);
+            if qs.contains(&Query::Reset) {
+                self.out.reset_query_after_cache_reset += 1;
+                let a = &self.actors[i];
+                let serial = match seg.query {
+                    Some(ExpectQ::Serial(s)) => s,
+                    _ => S0,
+                };
+                let mut pdus = vec![Pdu::CacheResponse];
+                for v in &a.expect {
+                    pdus.push(Pdu::Prefix(UNI.iter().position(|u| u == v).unwrap(), true));
+                }
+                pdus.push(Pdu::EndOfData(serial));
+                let mut bytes = Vec::new();
+                for p in &pdus {
+                    encode(p, a.ver, a.session, &mut bytes);
+                }
+                self.log(|| format!("cache {}: client sent a Reset Query after Cache Reset; answering with the full set", self.actors[i].name));
+                let alive = self.deliver(i, &bytes).await;
+                if self.out.mach.is_some() {
+                    return;
+                }
+                self.actors[i].sent.extend(pdus.iter().cloned());
+                self.check_progress(i, !alive);
+                if self.broken() || !alive {
+                    return;
+                }
+                self.actors[i].incr_ann.clear();
+                self.actors[i].incr_wd.clear();
+                self.actors[i].snapshot = self.actors[i].expect.clone();
+                self.check(i, Phase::ResetEod);
+            } else {
+                self.out.cache_reset_unanswered += 1;
+            }
+        }
+    }
+
+    /// reference fold (plain set operations): the payload PDUs since the last Cache Response, applied to
+    /// the expected set - replacing it for a reset response, updating it for an incremental one
+    fn apply_fold(&mut self, i: usize, seg: &Seg) {
+        let a = &mut self.actors[i];
+        // payload PDUs since the last Cache Response in `sent`
+        let start = a.sent.iter().rposition(|p| matches!(p, Pdu::CacheResponse)).unwrap_or(0);
+        let payload: Vec<(usize, bool)> = a.sent[start..]
+            .iter()
+            .filter_map(|p| match p {
+                Pdu::Prefix(r, ann) => Some((*r, *ann)),
+                _ => None,
+            })
+            .collect();
+        if seg.kind == SegKind::InitResp {
+            a.expect = payload.iter().filter(|(_, ann)| *ann).map(|(r, _)| UNI[*r]).collect();
+            a.snapshot = a.expect.clone();
+            a.incr_ann.clear();
+            a.incr_wd.clear();
+        } else {
+            for (r, ann) in payload {
+                let v = UNI[r];
+                if ann {
+                    a.expect.insert(v);
+                    a.incr_ann.insert(v);
+                    a.incr_wd.remove(&v);
+                } else {
+                    a.expect.remove(&v);
+                    a.incr_wd.insert(v);
+                    a.incr_ann.remove(&v);
+                }
+            }
+        }
+        a.synced = true;
+    }
+
+    /// the client ended the session on its own although the cache only sent conforming PDUs
+    async fn client_gone(&mut self, i: usize) {
+        if !self.broken() {
+            self.out.viol_actor = i;
+            let a = &self.actors[i];
+            let last = a.sent.last().map(|p| p.name()).unwrap_or("connect");
+            self.violate(
+                format!("C13/progress/client-quit/{}-v{}", last, a.ver),
+                format!("the client of cache {} ended the session by itself after a well-formed {} PDU", a.name, last),
+            );
+        }
+        self.close(i).await;
+    }
+}
+
+fn make_actor(name: char, script: &Script, delivery: Delivery, fault: Option<usize>, per_pdu: bool) -> Actor {
+    let (ip, session) = if name == 'A' { ([192, 0, 2, 1], 0x0a0bu16) } else { ([192, 0, 2, 2], 0x0c0d) };
+    let mut segs = segments(script);
+    if per_pdu {
+        segs = split_per_pdu(segs);
+    }
+    Actor {
+        name,
+        addr: Arc::new(IpAddr::from(ip)),
+        session,
+        ver: script.ver,
+        segs,
+        next_seg: 0,
+        delivery,
+        fault,
+        io: None,
+        st: Arc::new(IoStat::default()),
+        state: Arc::new(RpkiState::default()),
+        handle: None,
+        written: 0,
+        chunks: 0,
+        sent: Vec::new(),
+        inbuf: Vec::new(),
+        expect: BTreeSet::new(),
+        snapshot: BTreeSet::new(),
+        synced: false,
+        incr_ann: BTreeSet::new(),
+        incr_wd: BTreeSet::new(),
+        closed: false,
+    }
+}
+
+async fn drive(case: &Case, verbose: bool) -> Outcome {
+    // one TableManager per worker thread (constructing and dropping one per case is dominated by the
+    // cross-thread bookkeeping of its ArcSwap fields); every case starts from a fresh, empty RpkiTable
+    let tables: TableHandle = TABLES.with(|t| t.clone());
+    *tables.rpki.write().unwrap() = table::RpkiTable::new();
+    let mut w = World {
+        tables,
+        actors: vec![
+            make_actor('A', &case.a, case.delivery, case.fault, case.two && case.per_pdu),
+            make_actor('B', &case.b, Delivery::Whole, None, case.two && case.per_pdu),
+        ],
+        out: Outcome::default(),
+        verbose,
+        before: BTreeMap::new(),
+        last_event: "on-other-pdu",
+    };
+    let sched: Vec<u8> = if case.two {
+        case.merge.clone()
+    } else {
+        // passive cache B syncs first, then A runs its whole script and closes, then B closes
+        let mut s = vec![1u8];
+        s.extend(std::iter::repeat(0u8).take(w.actors[0].segs.len() + 1));
+        s.push(1);
+        s
+    };
+    for &k in &sched {
+        w.step(k as usize).await;
+        if w.broken() {
+            break;
+        }
+    }
+    // tear down whatever is still up (no verdicts: `broken` or already closed)
+    for i in 0..w.actors.len() {
+        w.actors[i].io = None;
+        if let Some(h) = w.actors[i].handle.take() {
+            let mut n = 0;
+            while !h.is_finished() && n < TURN_LIMIT {
+                tokio::task::yield_now().await;
+                n += 1;
+            }
+            if !h.is_finished() {
+                h.abort();
+            }
+            let _ = h.await;
+        }
+    }
+    w.out
+}
+
+thread_local! {
+    static RT: tokio::runtime::Runtime = tokio::runtime::Builder::new_current_thread().build().expect("runtime");
+    static TABLES: TableHandle = Arc::new(TableManager::new(1));
+    static SLOT: std::cell::Cell<usize> = const { std::cell::Cell::new(usize::MAX) };
+}
+
+// watchdog: a client that spins without yielding can not be interrupted from inside the
+// runtime; the case that is running on each worker is published here.
+static HEART: Mutex<Vec<Option<(std::time::Instant, String)>>> = Mutex::new(Vec::new());
+
+fn heart_set(case: Option<String>) {
+    let slot = SLOT.with(|s| {
+        if s.get() == usize::MAX {
+            let mut h = HEART.lock().unwrap();
+            h.push(None);
+            s.set(h.len() - 1);
+        }
+        s.get()
+    });
+    let mut h = HEART.lock().unwrap();
+    h[slot] = case.map(|c| (std::time::Instant::now(), c));
+}
+
+fn start_watchdog() {
+    static ONCE: std::sync::Once = std::sync::Once::new();
+    ONCE.call_once(|| {
+        std::thread::spawn(|| loop {
+            std::thread::sleep(std::time::Duration::from_secs(2));
+            let stuck: Option<String> = {
+                let h = HEART.lock().unwrap();
+                h.iter().flatten().find(|(t, _)| t.elapsed().as_secs() > WATCHDOG_SECS).map(|(_, c)| c.clone())
+            };
+            if let Some(c) = stuck {
+                let mut rep = Report::new("C13", "hd-c13");
+                rep.exhaustive = false;
+                rep.machinery_error = Some(format!("a case did not return control within {WATCHDOG_SECS} s (client task spinning without yielding?): {c}"));
+                rep.finish();
+                std::process::exit(2);
+            }
+        });
+    });
+}
+
+fn evaluate(case: &Case, verbose: bool) -> Outcome {
+    let r = report::catch(|| RT.with(|rt| rt.block_on(drive(case, verbose))));
+    match r {
+        Ok(o) => o,
+        Err(msg) => Outcome { mach: Some(format!("harness panicked: {msg} in case {}", case_str(case))), ..Default::default() },
+    }
+}
+
+// ---------------------------------------------------------------------------
+// enumeration
+// ---------------------------------------------------------------------------
+
+/// every response a conforming cache can give in one round, given the set it has announced so far:
+/// a data response of <= max_len payload PDUs (announce of an absent record / withdrawal of a present
+/// one - RFC 8210 5.6/5.7 forbid duplicate announcements and withdrawals of unknown records), Cache
+/// Reset, or Error Report.
+fn round_choices(cur: &BTreeSet<usize>, max_len: usize) -> Vec<(Round, BTreeSet<usize>)> {
+    let mut out = Vec::new();
+    let mut level: Vec<(Vec<(usize, bool)>, BTreeSet<usize>)> = vec![(vec![], cur.clone())];
+    out.push((Round::Data(vec![]), cur.clone()));
+    for _ in 0..max_len {
+        let mut next = Vec::new();
+        for (seq, set) in &level {
+            for r in 0..3usize {
+                let mut s2 = set.clone();
+                let ann = !s2.contains(&r);
+                if ann {
+                    s2.insert(r);
+                } else {
+                    s2.remove(&r);
+                }
+                let mut q = seq.clone();
+                q.push((r, ann));
+                out.push((Round::Data(q.clone()), s2.clone()));
+                next.push((q, s2));
+            }
+        }
+        level = next;
+    }
+    out.push((Round::Reset, cur.clone()));
+    out.push((Round::Error, cur.clone()));
+    out
+}
+
+fn gen_rounds(cur: &BTreeSet<usize>, left: usize, max_len: usize, acc: &mut Vec<Round>, out: &mut Vec<Vec<Round>>) {
+    out.push(acc.clone());
+    if left == 0 {
+        return;
+    }
+    for (r, s2) in round_choices(cur, max_len) {
+        acc.push(r);
+        gen_rounds(&s2, left - 1, max_len, acc, out);
+        acc.pop();
+    }
+}
+
+fn inits(ordered: bool) -> Vec<Vec<usize>> {
+    let mut out = Vec::new();
+    for sub in enumr::subsets_upto(3, 3) {
+        if ordered && sub.len() > 1 {
+            for p in enumr::permutations(sub.len()) {
+                out.push(p.iter().map(|&i| sub[i]).collect());
+            }
+        } else {
+            out.push(sub);
+        }
+    }
+    out
+}
+
+/// base scripts (no unused PDU) for the given bounds
+fn base_scripts(vers: &[u8], ordered_init: bool, rounds: usize, max_len: usize) -> Vec<Script> {
+    let mut out = Vec::new();
+    for &ver in vers {
+        for init in inits(ordered_init) {
+            let cur: BTreeSet<usize> = init.iter().cloned().collect();
+            let mut rs = Vec::new();
+            gen_rounds(&cur, rounds, max_len, &mut Vec::new(), &mut rs);
+            for r in rs {
+                out.push(Script { ver, init: init.clone(), rounds: r, extra: None });
+            }
+        }
+    }
+    out
+}
+
+/// the same scripts with one Router Key PDU at every payload position of every data response (v1 only)
+fn with_router_key(base: &[Script], both_flags: bool) -> Vec<Script> {
+    let mut out = Vec::new();
+    for s in base {
+        if s.ver < 1 {
+            continue;
+        }
+        let mut resp: Vec<(usize, usize)> = vec![(0, s.init.len())];
+        for (i, r) in s.rounds.iter().enumerate() {
+            if let Round::Data(d) = r {
+                resp.push((i + 1, d.len()));
+            }
+        }
+        for (r, len) in resp {
+            for pos in 0..=len {
+                let flags: &[bool] = if both_flags && r > 0 { &[true, false] } else { &[true] };
+                for &ann in flags {
+                    let mut t = s.clone();
+                    t.extra = Some((r, pos, ann));
+                    out.push(t);
+                }
+            }
+        }
+    }
+    out
+}
+
+struct Layout {
+    pdu_ends: Vec<usize>,
+    seg_ends: Vec<usize>,
+    total: usize,
+    transcript: Vec<u8>,
+    vrp_pdus: usize,
+}
+
+fn layout(s: &Script) -> Layout {
+    let segs = segments(s);
+    let mut l = Layout { pdu_ends: vec![], seg_ends: vec![], total: 0, transcript: vec![], vrp_pdus: 0 };
+    let mut bytes = Vec::new();
+    for seg in &segs {
+        l.transcript.push(match seg.query {
+            None => 0xF0,
+            Some(ExpectQ::Reset) => 0xF1,
+            Some(ExpectQ::Serial(_)) => 0xF2,
+        });
+        for p in &seg.pdus {
+            encode(p, s.ver, 0x0a0b, &mut bytes);
+            l.pdu_ends.push(bytes.len());
+            if matches!(p, Pdu::Prefix(..)) {
+                l.vrp_pdus += 1;
+            }
+        }
+        l.seg_ends.push(bytes.len());
+        l.transcript.extend_from_slice(&(bytes.len() as u32).to_be_bytes());
+    }
+    l.total = bytes.len();
+    l.transcript.extend_from_slice(&bytes);
+    l
+}
+
+static SCRIPTS_SEEN: Mutex<Option<HashSet<u128>>> = Mutex::new(None);
+static OUTCOMES: Mutex<Option<HashSet<u128>>> = Mutex::new(None);
+
+fn note_outcome(o: &Outcome) {
+    thread_local! { static LOCAL: std::cell::RefCell<HashSet<u128>> = std::cell::RefCell::new(HashSet::new()); }
+    let mut t = o.trace.clone();
+    if let Some((sig, _)) = &o.viol {
+        t.extend_from_slice(sig.as_bytes());
+    }
+    let h = hash128(&t);
+    let new = LOCAL.with(|l| l.borrow_mut().insert(h));
+    if new {
+        OUTCOMES.lock().unwrap().get_or_insert_with(HashSet::new).insert(h);
+    }
+}
+
+fn absorb(rep: &mut Report, o: &Outcome) {
+    rep.evaluations += 1;
+    rep.add("oracle_checks", o.checks);
+    rep.add("cache_reset_not_followed_by_reset_query", o.cache_reset_unanswered);
+    rep.add("cache_reset_followed_by_reset_query", o.reset_query_after_cache_reset);
+    rep.add("rounds_without_query_after_notify", o.no_query);
+    rep.add("rounds_with_unexpected_query", o.unexpected_query);
+    rep.add("chunks_delivered", o.frag_chunks);
+    rep.add("chunks_read_separately_by_client", o.frag_reads);
+    let m = rep.extra.entry("max_scheduler_turns_to_ack".into()).or_insert(0);
+    *m = (*m).max(o.max_turns);
+    if let Some(e) = &o.mach {
+        if rep.machinery_error.is_none() {
+            rep.machinery_error = Some(e.clone());
+        }
+    }
+    note_outcome(o);
+}
+
+thread_local! {
+    /// signature (or none) of simplified cases already evaluated for the current work item
+    static MIN_CACHE: std::cell::RefCell<std::collections::HashMap<String, Option<(String, String)>>> = std::cell::RefCell::new(std::collections::HashMap::new());
+}
+
+fn cached_verdict(rep: &mut Report, c: &Case) -> Option<(String, String)> {
+    let key = case_str(c);
+    if let Some(v) = MIN_CACHE.with(|m| m.borrow().get(&key).cloned()) {
+        return v;
+    }
+    let o = evaluate(c, false);
+    rep.add("minimisation_reruns", 1);
+    MIN_CACHE.with(|m| m.borrow_mut().insert(key, o.viol.clone()));
+    o.viol
+}
+
+fn remember_verdict(c: &Case, o: &Outcome) {
+    if !c.two && c.delivery == Delivery::Whole {
+        MIN_CACHE.with(|m| m.borrow_mut().insert(case_str(c), o.viol.clone()));
+    }
+}
+
+fn sig_suffix(c: &Case, sig: &mut String) {
+    if c.two {
+        sig.push_str("+two-active-caches");
+    } else {
+        if c.delivery != Delivery::Whole {
+            sig.push_str("+only-when-fragmented");
+        }
+        if c.a.extra.is_some() && !sig.starts_with("C13/progress/") {
+            sig.push_str("+with-unused-pdu");
+        }
+    }
+}
+
+/// Report the violation of `case` under the simplest variant of the case that shows the same signature.
+fn report_violation(rep: &mut Report, case: &Case, o: &Outcome) {
+    let Some((sig, what)) = o.viol.clone() else { return };
+    let mut best = (case.clone(), sig.clone(), what);
+    // candidates, simplest first
+    let mut cands: Vec<Case> = Vec::new();
+    if case.two {
+        // the script of the cache whose event broke the clause, alone (next to the passive second cache)
+        let s = if o.viol_actor == 0 { case.a.clone() } else { case.b.clone() };
+        cands.push(Case { two: false, a: s, b: passive_b(), delivery: Delivery::Whole, fault: None, merge: vec![], per_pdu: false });
+    } else {
+        let mut c = case.clone();
+        c.delivery = Delivery::Whole;
+        c.fault = None;
+        c.a.extra = None;
+        cands.push(c);
+        let mut c = case.clone();
+        c.delivery = Delivery::Whole;
+        c.fault = None;
+        cands.push(c);
+        let mut c = case.clone();
+        c.delivery = Delivery::Whole;
+        cands.push(c);
+    }
+    let me = case_str(case);
+    for c in cands {
+        if case_str(&c) == me {
+            break; // already as simple as this candidate
+        }
+        if let Some((s2, w2)) = cached_verdict(rep, &c) {
+            if s2 == sig {
+                best = (c, s2, w2);
+                break;
+            }
+        }
+    }
+    let (c, mut sig, what) = best;
+    sig_suffix(&c, &mut sig);
+    let v = Violation { sig, what, case: case_str(&c) };
+    // witness per signature independent of thread timing: shortest case, ties broken lexicographically
+    {
+        let mut b = BEST.lock().unwrap();
+        match b.get_mut(&v.sig) {
+            Some(old) => {
+                if (v.case.len(), &v.case) < (old.case.len(), &old.case) {
+                    *old = v.clone();
+                }
+            }
+            None => {
+                b.insert(v.sig.clone(), v.clone());
+            }
+        }
+    }
+    rep.violation(v);
+}
+
+static BEST: Mutex<BTreeMap<String, Violation>> = Mutex::new(BTreeMap::new());
+
+/// Product: every delivery x every close point.  Sum: (every delivery, no fault) + ({whole, bytewise} x every
+/// close point).  Coarse: {whole, bytewise} x ({no fault} + every close point).
+#[derive(Clone, Copy, PartialEq, Eq, Debug)]
+enum Mode {
+    Product,
+    Sum,
+    Coarse,
+}
+
+/// all (delivery, fault) variants of one script, canonicalised: a split beyond the close point or on a
+/// segment boundary is the same execution as `whole`.
+fn variants(l: &Layout, mode: Mode) -> Vec<(Delivery, Option<usize>)> {
+    let (splits, faults) = (mode != Mode::Coarse, true);
+    let n = l.pdu_ends.len();
+    let mut seen: HashSet<(usize, u8, usize)> = HashSet::new();
+    let mut out = Vec::new();
+    let mut fs: Vec<Option<usize>> = vec![None];
+    if faults {
+        fs.extend((0..n).map(Some));
+    }
+    for f in fs {
+        let close_off = match f {
+            None => l.total,
+            Some(0) => 0,
+            Some(j) => l.pdu_ends[j - 1],
+        };
+        let fkey = f.map(|j| j + 1).unwrap_or(0);
+        let mut ds = vec![Delivery::Whole, Delivery::Bytes];
+        if splits && (mode == Mode::Product || f.is_none()) {
+            ds.extend((1..l.total).map(Delivery::Split));
+        }
+        for d in ds {
+            let key = match d {
+                Delivery::Whole => (fkey, 0u8, 0usize),
+                Delivery::Bytes => {
+                    if close_off <= 1 {
+                        (fkey, 0, 0)
+                    } else {
+                        (fkey, 1, 0)
+                    }
+                }
+                Delivery::Split(k) => {
+                    if k >= close_off || l.seg_ends.contains(&k) {
+                        (fkey, 0, 0)
+                    } else {
+                        (fkey, 2, k)
+                    }
+                }
+            };
+            if seen.insert(key) {
+                out.push((d, f));
+            }
+        }
+    }
+    out
+}
+
+fn explore_single(rep: &mut Report, name: &str, scripts: Vec<Script>, mode: Mode) {
+    let t0 = std::time::Instant::now();
+    let ev0 = rep.evaluations;
+    let d0 = rep.distinct_nontrivial;
+    let v0 = rep.violations.len();
+    let n = scripts.len() as u64;
+    enumr::par_range(n, rep, |i, local| {
+        let s = &scripts[i as usize];
+        let l = layout(s);
+        let fresh = SCRIPTS_SEEN.lock().unwrap().get_or_insert_with(HashSet::new).insert(hash128(&l.transcript));
+        if !fresh {
+            local.add("duplicate_scripts_skipped", 1);
+            return;
+        }
+        let nontrivial = l.vrp_pdus > 0 || !s.rounds.is_empty() || s.extra.is_some();
+        local.add("distinct_scripts", 1);
+        heart_set(Some(script_str(s)));
+        MIN_CACHE.with(|m| m.borrow_mut().clear());
+        for (d, f) in variants(&l, mode) {
+            let case = Case { two: false, a: s.clone(), b: passive_b(), delivery: d, fault: f, merge: vec![], per_pdu: false };
+            let o = evaluate(&case, false);
+            remember_verdict(&case, &o);
+            absorb(local, &o);
+            if nontrivial {
+                local.distinct_nontrivial += 1;
+            }
+            if o.viol.is_some() {
+                report_violation(local, &case, &o);
+            }
+            let idx = local.evaluations;
+            local.sample(idx, || format!("{} -> {} oracle checks, {}", case_str(&case), o.checks, o.viol.as_ref().map(|v| v.0.clone()).unwrap_or_else(|| "ok".into())));
+        }
+        heart_set(None);
+    });
+    rep.notes.push(format!(
+        "{name} [{mode:?}]: {} scripts, {} executions, {} distinct non-trivial (script,delivery,fault) cases, {} new violation signatures, {:.1}s",
+        n,
+        rep.evaluations - ev0,
+        rep.distinct_nontrivial - d0,
+        rep.violations.len() - v0,
+        t0.elapsed().as_secs_f64()
+    ));
+}
+
+/// all interleavings of na steps of actor 0 and nb steps of actor 1
+fn merges(na: usize, nb: usize) -> Vec<Vec<u8>> {
+    fn rec(na: usize, nb: usize, cur: &mut Vec<u8>, out: &mut Vec<Vec<u8>>) {
+        if na == 0 && nb == 0 {
+            out.push(cur.clone());
+            return;
+        }
+        if na > 0 {
+            cur.push(0);
+            rec(na - 1, nb, cur, out);
+            cur.pop();
+        }
+        if nb > 0 {
+            cur.push(1);
+            rec(na, nb - 1, cur, out);
+            cur.pop();
+        }
+    }
+    let mut out = Vec::new();
+    rec(na, nb, &mut Vec::new(), &mut out);
+    out
+}
+
+fn explore_two(rep: &mut Report, name: &str, sa: Vec<Script>, sb: Vec<Script>, per_pdu: bool) {
+    // the two caches differ only in their address: when both range over the same script list, (A=x,B=y,m) and
+    // (A=y,B=x,complement of m) are the same case - evaluate one of them
+    let symmetric = sa == sb;
+    let t0 = std::time::Instant::now();
+    let ev0 = rep.evaluations;
+    let v0 = rep.violations.len();
+    let n = (sa.len() * sb.len()) as u64;
+    let steps = |s: &Script| -> usize {
+        let segs = segments(s);
+        (if per_pdu { segs.iter().map(|g| g.pdus.len()).sum::<usize>() } else { segs.len() }) + 1
+    };
+    enumr::par_range(n, rep, |i, local| {
+        let (ia, ib) = (i as usize / sb.len(), i as usize % sb.len());
+        if symmetric && ia > ib {
+            return;
+        }
+        let a = &sa[ia];
+        let b = &sb[ib];
+        heart_set(Some(format!("T|{}|{}", script_str(a), script_str(b))));
+        MIN_CACHE.with(|m| m.borrow_mut().clear());
+        for m in merges(steps(a), steps(b)) {
+            if symmetric && ia == ib {
+                let comp: Vec<u8> = m.iter().map(|x| 1 - x).collect();
+                if comp < m {
+                    continue;
+                }
+            }
+            let case = Case { two: true, a: a.clone(), b: b.clone(), delivery: Delivery::Whole, fault: None, merge: m, per_pdu };
+            let o = evaluate(&case, false);
+            absorb(local, &o);
+            // distinct by construction: (unordered pair of scripts, interleaving up to the A<->B symmetry)
+            if !(a.init.is_empty() && a.rounds.is_empty() && b.init.is_empty() && b.rounds.is_empty()) {
+                local.distinct_nontrivial += 1;
+            }
+            if o.viol.is_some() {
+                report_violation(local, &case, &o);
+            }
+            let idx = local.evaluations;
+            local.sample(idx, || format!("{} -> {} oracle checks, {}", case_str(&case), o.checks, o.viol.as_ref().map(|v| v.0.clone()).unwrap_or_else(|| "ok".into())));
+        }
+        heart_set(None);
+    });
+    rep.notes.push(format!(
+        "{name}: {} ordered script pairs (mirror images evaluated once), {} executions (every interleaving at {} granularity incl. the two closes), {} new violation signatures, {:.1}s",
+        n,
+        rep.evaluations - ev0,
+        if per_pdu { "PDU" } else { "segment" },
+        rep.violations.len() - v0,
+        t0.elapsed().as_secs_f64()
+    ));
+}
+
+/// Decoder-level facts behind the progress clause, observed directly on `RtrCodec::decode`
+/// (diagnostic notes only - the verdicts come from the executions above).
+fn decoder_probe(rep: &mut Report) {
+    use bytes::BytesMut;
+    use tokio_util::codec::Decoder;
+    let mut codec = rpki::RtrCodec::new();
+    // a complete Router Key PDU followed by a complete End-of-Data
+    let mut b = Vec::new();
+    encode(&Pdu::RouterKey(true), 1, 1, &mut b);
+    let rk = b.len();
+    encode(&Pdu::EndOfData(9), 1, 1, &mut b);
+    let mut buf = BytesMut::from(&b[..]);
+    let r = report::catch(|| codec.decode(&mut buf).map(|m| m.is_some()).map_err(|e| e.to_string()));
+    rep.notes.push(format!(
+        "decoder probe: buffer = complete Router Key PDU ({rk} bytes) + complete End-of-Data: RtrCodec::decode -> {:?}, {} of {} bytes left in the buffer",
+        r,
+        buf.len(),
+        b.len()
+    ));
+    // header with length 0 (malformed, C03 territory): does decode return a message without consuming?
+    let mut buf = BytesMut::from(&[1u8, 3, 0, 1, 0, 0, 0, 0][..]);
+    let r = report::catch(|| codec.decode(&mut buf).map(|m| m.is_some()).map_err(|e| e.to_string()));
+    rep.notes.push(format!(
+        "decoder probe (malformed input, outside C13's conforming grammar): Cache Response header with length field 0: RtrCodec::decode -> {:?}, {} of 8 bytes left",
+        r,
+        buf.len()
+    ));
+}
+
+pub(crate) fn run_c13(replay: Option<&str>) -> Report {
     let mut rep = Report::new("C13", "hd-c13");
-    rep.machinery_error = Some("harness not built yet".into());
+    report::quiet_panics();
+    start_watchdog();
+    if let Some(case) = replay {
+        let Some(c) = parse_case(case) else {
+            rep.machinery_error = Some(format!("unparsable case {case:?}"));
+            return rep;
+        };
+        eprintln!("replay {}", case_str(&c));
+        let o = evaluate(&c, true);
+        absorb(&mut rep, &o);
+        if let Some((sig, what)) = &o.viol {
+            let mut sig = sig.clone();
+            sig_suffix(&c, &mut sig);
+            eprintln!("replay: {} :: {}", sig, what);
+            rep.violation(Violation { sig, what: what.clone(), case: case_str(&c) });
+        } else {
+            eprintln!("replay: no violation ({} oracle checks)", o.checks);
+        }
+        return rep;
+    }
+
+    let thorough = rep.thorough();
+    rep.rule = "case = (cache script from the RFC 6810/8210 grammar: version in {0,1}; reset response announcing a subset of {v4a,v4b (same prefix, other max-len),v6a}; <=R rounds of Serial Notify -> observed Serial Query -> data response (<=L announce-of-absent/withdraw-of-present PDUs) | Cache Reset | Error Report; optional Router Key PDU at every payload position) x delivery (whole segments, byte-by-byte, every single split offset) x session loss after every PDU, all run against the real serve_inner next to a second cache holding an identical VRP; plus two scripted caches under every interleaving. Distinct = distinct wire transcript x canonical (split offset, close point); non-trivial = at least one VRP PDU, round or unused PDU".into();
+
+    decoder_probe(&mut rep);
+
+    if !thorough {
+        // full product delivery x fault for one round, sum for two rounds
+        explore_single(&mut rep, "single R<=1 L<=1", base_scripts(&[0, 1], false, 1, 1), Mode::Product);
+        explore_single(&mut rep, "single R<=2 L<=1", base_scripts(&[0, 1], false, 2, 1), Mode::Sum);
+        explore_single(&mut rep, "router-key R=0", with_router_key(&base_scripts(&[1], false, 0, 1), false), Mode::Product);
+        explore_single(&mut rep, "router-key R<=1 L<=1", with_router_key(&base_scripts(&[1], false, 1, 1), false), Mode::Sum);
+        explore_single(&mut rep, "single R<=2 L<=2", base_scripts(&[0, 1], false, 2, 2), Mode::Coarse);
+        let s2: Vec<Script> = base_scripts(&[1], false, 1, 1).into_iter().filter(|s| matches!(s.init.as_slice(), [] | [0] | [0, 1] | [0, 2])).collect();
+        explore_two(&mut rep, "two caches R<=1 L<=1 segment interleavings", s2.clone(), s2, false);
+    } else {
+        explore_single(&mut rep, "single R<=2 L<=2", base_scripts(&[0, 1], false, 2, 2), Mode::Product);
+        explore_single(&mut rep, "single R<=1 L<=1 ordered reset responses", base_scripts(&[0, 1], true, 1, 1), Mode::Product);
+        explore_single(&mut rep, "single R<=3 L<=1", base_scripts(&[0, 1], false, 3, 1), Mode::Sum);
+        explore_single(&mut rep, "router-key R<=1 L<=1", with_router_key(&base_scripts(&[1], false, 1, 1), true), Mode::Product);
+        explore_single(&mut rep, "router-key R<=2 L<=1", with_router_key(&base_scripts(&[1], false, 2, 1), true), Mode::Sum);
+        explore_single(&mut rep, "single R<=3 L<=2", base_scripts(&[0, 1], false, 3, 2), Mode::Coarse);
+        let sa = base_scripts(&[1], false, 2, 1);
+        let sb: Vec<Script> = base_scripts(&[1], false, 1, 1).into_iter().filter(|s| matches!(s.init.as_slice(), [] | [0] | [0, 1] | [0, 2])).collect();
+        explore_two(&mut rep, "two caches R<=2/R<=1 L<=1 segment interleavings", sa, sb, false);
+        let tiny: Vec<Script> = base_scripts(&[1], false, 1, 1).into_iter().filter(|s| matches!(s.init.as_slice(), [] | [0])).collect();
+        explore_two(&mut rep, "two caches R<=1 L<=1 PDU interleavings", tiny.clone(), tiny, true);
+    }
+
+    for (sig, v) in BEST.lock().unwrap().iter() {
+        if let Some((w, _)) = rep.violations.get_mut(sig) {
+            *w = v.clone();
+        }
+    }
+    let outcomes = OUTCOMES.lock().unwrap().as_ref().map(|s| s.len()).unwrap_or(0);
+    rep.add("distinct_observation_traces", outcomes as u64);
+    rep.notes.push(format!("{} distinct observation traces (sequence of per-source VRP sets seen at the oracle points + verdict)", outcomes));
+    let chunks = rep.extra.get("chunks_delivered").cloned().unwrap_or(0);
+    let sep = rep.extra.get("chunks_read_separately_by_client").cloned().unwrap_or(0);
+    if chunks != sep && rep.machinery_error.is_none() {
+        rep.machinery_error = Some(format!("fragmentation not effective: {chunks} chunks delivered but only {sep} were read by the client in a read of their own"));
+    }
+    rep.notes.push("assume: a version-0 cache answers the client's version-1 queries with version-0 PDUs (RFC 8210 section 7, case 2); the client's queries are always version 1".into());
+    rep.notes.push("assume: acknowledgement = the client has read every byte and is parked in poll_read (tap on its end of the duplex) + its public receive counters; no sleeps, no wall clock".into());
+    rep.notes.push("assume: Error Report rounds use error code 2 (No Data Available, non-fatal); fatal Error Reports are covered only as 'connection closed after the PDU'".into());
+    rep.notes.push("assume: a conforming cache never announces a record it already announced nor withdraws an unknown one (RFC 8210 5.6/5.7), so scripts contain neither".into());
     rep
 }
